@@ -103,6 +103,10 @@ OBLIGATIONS = [
      "statement": "the two Lean models of responseRequestsClose (C15 split/trim/lower, C17 index loop) agree on every parsed response"},
     {"id": "C17_R4beyond", "theorem": "Iora.C17.R4_bytes_beyond_message_not_cached", "kind": "proved",
      "statement": "byte level: if ANY received byte lies beyond the framed message (handed to the framer or left in the transport) nothing is cached for the host afterwards"},
+    {"id": "C17_R3chunk", "theorem": "Iora.C17.R3_bytes_chunk_size_above_cap_is_framing_error", "kind": "proved",
+     "statement": "advanceChunked rejects right after the chunk-size parse, BEFORE waiting for chunk data, when the number does not parse or exceeds the cap (regenerated fact); the byte-level model accepts a size line only within the cap, answers NeedMore after a complete size line only for a size within the cap; and every byte-level framing error is HttpFramingError here (never retried), connection dropped"},
+    {"id": "C17_R3chunk_demo", "theorem": "Iora.C17.R3_bytes_chunk_demo", "kind": "proved",
+     "statement": "concrete bytes: chunk-size 7FFFFFFF / FFFFFFFFFFFFFFFF / cap+1 are Malformed at the size line with the default cap, exactly the cap is NeedMore"},
     {"id": "C17_R4demo", "theorem": "Iora.C17.R4_bytes_demo", "kind": "proved",
      "statement": "non-vacuity with concrete bytes: keep-alive response + 1 surplus byte in the same delivery is not cached, without it it is"},
 ]
@@ -223,6 +227,35 @@ MALFORMED = [
     b"HTTP/1.1 200 OK\r\nX-A: 1\r\n folded\r\nContent-Length: 0\r\n\r\n",
     b"HTTP/1.1 200 OK\r\nno colon here\r\nContent-Length: 0\r\n\r\n",
 ]
+DEFAULT_CAP = 16 * 1024 * 1024      # effectiveCap = max(maxResponseBytes, jsonConfig.maxPayloadSize) of Config() (the harness sets both when cap > 0)
+
+
+def chunk_over_cap(cap):
+    """well-formed chunked responses that ANNOUNCE a chunk above the response cap (`cap` as on the reset line, 0 = default) and deliver five bytes
+    of it: a deterministic framing error at the size line, whatever the peer does next"""
+    eff = cap if cap > 0 else DEFAULT_CAP
+    return [b"HTTP/1.1 200 OK\r\nTransfer-Encoding: chunked\r\n\r\n" + sz + b"\r\nhello"
+            for sz in (("%X" % (eff + 1)).encode(), b"7FFFFFFF", b"FFFFFFFFFFFFFFFF", ("%x" % (eff + 1)).encode() + b";ext=1")]
+
+
+def gen_chunk_over_cap(rng, seq):
+    """(seed C17-e) every announced-too-large chunk x what the server does after the bytes (f = close, s = stall until the request time-out,
+    k = keep the connection open and idle) x idempotent methods at budgets 0,1,2,4 (+ a POST): the attempt must end in HttpFramingError at
+    once — not wait, not be retried."""
+    cases = []
+    for cap in (0, 3000):
+        for mi, m in enumerate(chunk_over_cap(cap)):
+            for act in "fsk":
+                for method, budget in (("GET", 0), ("GET", 1), ("PUT", 2), ("DELETE", 4), ("GET", 2), ("POST", 2)):
+                    if (mi + budget) % 2 and act == "k":
+                        continue
+                    seq.next()
+                    tok = "F@" + conc(resp=m, act=act, cut=rng.choice([0, 0, len(m) - 7]))
+                    cases.append({"cat": "chunk-over-cap", "ops": [RESET % (1, cap, LEASE_TIMEOUT_MS, REQUEST_TIMEOUT_MS, CONNECT_TIMEOUT_MS),
+                                                                   req_op(method, budget, 0, 0, [tok] * (budget + 2))]})
+    return cases
+
+
 CONN_VALUES = [None, b"keep-alive", b"close", b"Close", b"CLOSE", b"foo, close", b"close, foo", b"keep-alive, close", b"close,keep-alive",
                b" close ", b"\tclose", b"foo,\tclose\t", b"x-close-hint", b"closed", b"clos", b"keep-alive, upgrade", b"Keep-Alive", b"upgrade",
                b"", b",", b",close", b"close,", b"foo,,close", b"c lose", b"keep-alive,", b"  ,  ,  "]
@@ -304,7 +337,7 @@ def rand_close_delimited(rng, tag, method):
     return "D:%s@%s" % (r.sem(), conc(resp=r.wire, j=j, act="f", cut=cut, xbody=r.wire[r.header_end:j]))
 
 
-def rand_fault(rng, cls, tag, method, seq, body_len, reuse_cfg):
+def rand_fault(rng, cls, tag, method, seq, body_len, reuse_cfg, cap=0):
     total, fields = request_fields(method, seq, body_len, reuse_cfg)
     if cls in "LRBMESO":
         return tok_client(cls)
@@ -325,6 +358,9 @@ def rand_fault(rng, cls, tag, method, seq, body_len, reuse_cfg):
         j = max(0, min(rng.choice(r.boundaries() + [rng.range(0, lim - 1)]), lim - 1))
         return tok_resp_fault(r, j, "s" if cls == "T" else rng.choice("fr"))
     if cls == "F":
+        if method != "HEAD" and rng.chance(1, 4):
+            m = rng.choice(chunk_over_cap(cap))
+            return "F@" + conc(resp=m, act=rng.choice("fsk"), cut=rng.choice([0, 0, len(m) - 7]))
         m = rng.choice(MALFORMED if method == "HEAD" else MALFORMED + MALFORMED_BODY)
         return "F@" + conc(resp=m, cut=rng.choice([0, 0, 5, len(m) // 2]))
     if cls == "V":
@@ -385,7 +421,7 @@ def gen_random(rng, seq, n_cases):
                 elif roll < 44 and cap:
                     t = tok_cap(rng, tag, cap)
                 else:
-                    t = rand_fault(rng, rng.choice(classes), tag, method, s, body_len, reuse_cfg)
+                    t = rand_fault(rng, rng.choice(classes), tag, method, s, body_len, reuse_cfg, cap)
                 if rng.chance(1, 25):
                     t = "I" + t
                 toks.append(t)
@@ -1241,6 +1277,7 @@ def run(ctx: Ctx):
             for c in cases:
                 seq.n += sum(1 for o in c["ops"] if o.startswith("req ") or o.startswith("call "))
             cases += gen_contend(rng.fork("contend"), 8 if quick else 60)
+            cases += gen_chunk_over_cap(rng.fork("chunkcap"), seq)
             cases += gen_pure(rng.fork("pure"), 60 if quick else 600)
             cases += gen_life(rng.fork("life"), seq)
             cases += gen_caller_headers(rng.fork("hdr"), seq)
